@@ -228,7 +228,9 @@ class ClosedFormIASolver(IASolverBaseClass):
 
         if self._use_best_init is True:
             # xxxxx Case when the best solution should be used xxxxxxxxxxxx
-            best_sum_capacity = 0
+            # Even if the sum capacity is zero for all initializations (very
+            # low SNR) the first one must be accepted
+            best_sum_capacity = -1.0
             all_initializations = self._calc_all_F_initializations(Ns[0])
 
             # Lambda function to calculate the sum capacity from the SINR
